@@ -1,5 +1,6 @@
 import CalVerif.Prim.Res
-/-! Model of the compound-file reader `/repo/src/cfb.rs` (after the fixes D25 and D29 landed):
+/-! Model of the compound-file reader `/repo/src/cfb.rs` (after the fixes D25, D29 and the follow-ups:
+    total `to_u32`, names without BOM sniffing, chains and FAT bounded by the file length):
     `Header::from_reader`, the DIFAT loop and the FAT loading of `Cfb::new`, `Sectors::get`,
     `Sectors::get_chain`, `Directory::from_slice`, `Cfb::new`, `Cfb::has_directory`, `Cfb::get_stream`.
 
@@ -11,9 +12,9 @@ import CalVerif.Prim.Res
       target: sector ids are `< 2^32`, sector sizes `≤ 4096`);
     * error classes: `io` (`CfbError::Io`, including the "invalid or cyclic chain" errors),
       `ole`, `invalid`, `emptyroot`, `notfound`;
-    * `panic` marks the places where the Rust code still unwinds (`to_u32`'s `assert_eq!` on a
-      truncated table sector; the slice panics of `Directory::from_slice` are unreachable since the
-      directory is cut with `chunks_exact(128)`, they are kept because the function has them). -/
+    * `panic` marks the places where Rust code can unwind: only the slice indexing of
+      `Directory::from_slice` is left, unreachable since the directory is cut with
+      `chunks_exact(128)` (kept because the function has it; `new_no_panic` proves unreachability). -/
 
 namespace Cfb
 
@@ -36,8 +37,7 @@ def u32At (b : Bytes) (o : Nat) : Nat :=
 /-- `read_u64(&b[o..])` -/
 def u64At (b : Bytes) (o : Nat) : Nat := u32At b o + 4294967296 * u32At b (o + 4)
 
-/-- the items of `to_u32(s)` (`s.chunks(4)` decoded little-endian); the `assert_eq!(s.len() % 4, 0)`
-    is checked by the callers, which is where the panic is modelled -/
+/-- the items of `to_u32(s)` (`s.chunks_exact(4)` decoded little-endian; a partial trailing item is ignored) -/
 def u32s : Bytes → List Nat
   | a :: b :: c :: d :: rest =>
     (a.toNat + 256 * b.toNat + 65536 * c.toNat + 16777216 * d.toNat) :: u32s rest
@@ -91,6 +91,8 @@ def Header.fromReader (rd : Bytes) : Res (Header × List Nat × Bytes) :=
 structure Sectors where
   data : Bytes
   size : Nat
+  /-- length of the file (`len` given to `Cfb::new`): no chain may yield more bytes -/
+  limit : Nat
   deriving Repr, DecidableEq
 
 /-- `Sectors::get` (EOF-safe version): read from `rd` what is missing up to the end of sector `id`
@@ -104,26 +106,29 @@ def Sectors.get (s : Sectors) (id : Nat) (rd : Bytes) : Bytes × Sectors × Byte
   let len := data.length
   ((data.drop (min start len)).take (min end_ len - min start len), { s with data := data }, rd')
 
-/-- the `while sector_id != ENDOFCHAIN` loop of `get_chain`, bounded by `remaining` (= `fats.len()`) -/
+/-- the `while sector_id != ENDOFCHAIN` loop of `get_chain`, bounded by `remaining` (= `fats.len()`);
+    `acc` is `chain.len()`: a chain that grows beyond the file length is an error (cyclic or corrupt) -/
 def Sectors.chainLoop (fats : List Nat) :
-    (remaining : Nat) → (id : Nat) → Sectors → Bytes → Res (Bytes × Sectors × Bytes)
-  | 0, id, s, rd => if id = ENDOFCHAIN then .ok ([], s, rd) else .err "io"
-  | rem + 1, id, s, rd =>
+    (remaining : Nat) → (id : Nat) → Sectors → Bytes → (acc : Nat) → Res (Bytes × Sectors × Bytes)
+  | 0, id, s, rd, _ => if id = ENDOFCHAIN then .ok ([], s, rd) else .err "io"
+  | rem + 1, id, s, rd, acc =>
     if id = ENDOFCHAIN then .ok ([], s, rd) else
     match fats[id]? with
     | none => .err "io"
     | some next =>
       let r := s.get id rd
-      match chainLoop fats rem next r.2.1 r.2.2 with
-      | .ok (rest, s', rd') => .ok (r.1 ++ rest, s', rd')
-      | .err e => .err e
-      | .panic e => .panic e
-      | .outOfFuel => .outOfFuel
+      if acc + r.1.length > s.limit then .err "io"
+      else
+        match chainLoop fats rem next r.2.1 r.2.2 (acc + r.1.length) with
+        | .ok (rest, s', rd') => .ok (r.1 ++ rest, s', rd')
+        | .err e => .err e
+        | .panic e => .panic e
+        | .outOfFuel => .outOfFuel
 
 /-- `Sectors::get_chain` -/
 def Sectors.getChain (s : Sectors) (start : Nat) (fats : List Nat) (rd : Bytes) (len : Nat) :
     Res (Bytes × Sectors × Bytes) :=
-  match Sectors.chainLoop fats fats.length start s rd with
+  match Sectors.chainLoop fats fats.length start s rd 0 with
   | .ok (chain, s', rd') => .ok (if len > 0 then chain.take len else chain, s', rd')
   | .err e => .err e
   | .panic e => .panic e
@@ -151,40 +156,8 @@ def decodeUtf16 : List Nat → List Char
     else if 0xDC00 ≤ u ∧ u < 0xE000 then replacement :: decodeUtf16 (v :: rest)
     else Char.ofNat u :: decodeUtf16 (v :: rest)
 
-def swap16 (u : Nat) : Nat := (u % 256) * 256 + u / 256
-
-/-- WHATWG UTF-8 decoder with replacement (one U+FFFD per maximal invalid subpart), as `encoding_rs`:
-    `needed`/`seen`/`cp` are the state of a multi-byte sequence, `lower..upper` the range allowed for the
-    next continuation byte. `fuel ≥ 2 * bytes.length + 1` suffices (an offending byte is reprocessed once). -/
-def decodeUtf8Go : (fuel : Nat) → Bytes → (needed seen cp lower upper : Nat) → List Char
-  | 0, _, _, _, _, _, _ => []
-  | _ + 1, [], needed, _, _, _, _ => if needed = 0 then [] else [replacement]
-  | fuel + 1, b :: rest, needed, seen, cp, lower, upper =>
-    let v := b.toNat
-    if needed = 0 then
-      if v ≤ 0x7F then Char.ofNat v :: decodeUtf8Go fuel rest 0 0 0 0x80 0xBF
-      else if 0xC2 ≤ v ∧ v ≤ 0xDF then decodeUtf8Go fuel rest 1 0 (v % 32) 0x80 0xBF
-      else if 0xE0 ≤ v ∧ v ≤ 0xEF then
-        decodeUtf8Go fuel rest 2 0 (v % 16) (if v = 0xE0 then 0xA0 else 0x80) (if v = 0xED then 0x9F else 0xBF)
-      else if 0xF0 ≤ v ∧ v ≤ 0xF4 then
-        decodeUtf8Go fuel rest 3 0 (v % 8) (if v = 0xF0 then 0x90 else 0x80) (if v = 0xF4 then 0x8F else 0xBF)
-      else replacement :: decodeUtf8Go fuel rest 0 0 0 0x80 0xBF
-    else if v < lower ∨ upper < v then
-      replacement :: decodeUtf8Go fuel (b :: rest) 0 0 0 0x80 0xBF
-    else
-      let cp' := cp * 64 + v % 64
-      if seen + 1 = needed then Char.ofNat cp' :: decodeUtf8Go fuel rest 0 0 0 0x80 0xBF
-      else decodeUtf8Go fuel rest needed (seen + 1) cp' 0x80 0xBF
-
-def decodeUtf8 (b : Bytes) : List Char := decodeUtf8Go (2 * b.length + 1) b 0 0 0 0x80 0xBF
-
-/-- `UTF_16LE.decode(&buf[..64])`: `Encoding::decode` sniffs a byte-order mark first. A UTF-16LE BOM
-    is removed, a UTF-16BE BOM switches the byte order, a UTF-8 BOM `EF BB BF` switches to UTF-8. -/
-def decodeName64 (b : Bytes) : List Char :=
-  match u16s b with
-  | 0xFEFF :: rest => decodeUtf16 rest
-  | 0xFFFE :: rest => decodeUtf16 (rest.map swap16)
-  | us => if b.take 3 = [0xEF, 0xBB, 0xBF] then decodeUtf8 (b.drop 3) else decodeUtf16 us
+/-- `UTF_16LE.decode_without_bom_handling(&buf[..64])`: always UTF-16LE, no byte-order-mark sniffing -/
+def decodeName64 (b : Bytes) : List Char := decodeUtf16 (u16s b)
 
 /-- truncation of the name at the first NUL -/
 def untilNul (cs : List Char) : List Char := cs.takeWhile (· ≠ Char.ofNat 0)
@@ -246,26 +219,27 @@ def difatLoop : (remaining : Nat) → (id : Nat) → List Nat → Sectors → By
         difatLoop rem (d.getLastD 0) d.dropLast r.2.1 r.2.2
     else .ok (difat, s, rd)
 
-/-- `for id in difat.filter(|id| *id < DIFSECT) { fats.extend(to_u32(sectors.get(id)?)) }` -/
-def loadFats : List Nat → Sectors → Bytes → Res (List Nat × Sectors × Bytes)
-  | [], s, rd => .ok ([], s, rd)
-  | id :: ids, s, rd =>
+/-- `for id in difat.filter(|id| *id < DIFSECT) { fats.extend(to_u32(sectors.get(id)?)); if fats.len() > len / 4 {Err} }`
+    (`to_u32` ignores a partial trailing item; `lim` is `len / 4`, `acc` is `fats.len()`) -/
+def loadFats : List Nat → Sectors → Bytes → (lim acc : Nat) → Res (List Nat × Sectors × Bytes)
+  | [], s, rd, _, _ => .ok ([], s, rd)
+  | id :: ids, s, rd, lim, acc =>
     if id < DIFSECT then
       let r := s.get id rd
-      if r.1.length % 4 ≠ 0 then .panic "to_u32: assert_eq!(s.len() % 4, 0)"
+      if acc + (u32s r.1).length > lim then .err "io"
       else
-        match loadFats ids r.2.1 r.2.2 with
+        match loadFats ids r.2.1 r.2.2 lim (acc + (u32s r.1).length) with
         | .ok (rest, s', rd') => .ok (u32s r.1 ++ rest, s', rd')
         | .err e => .err e
         | .panic e => .panic e
         | .outOfFuel => .outOfFuel
-    else loadFats ids s rd
+    else loadFats ids s rd lim acc
 
 /-- `Cfb::new(reader, len)`; `file` is everything the reader yields -/
 def new (file : Bytes) (len : Nat) : Res (CfbSt × Bytes) := do
   let (h, difat0, rd) ← Header.fromReader file
-  let (difat, s1, rd1) ← difatLoop (len / h.sectorSize + 1) h.difatStart difat0 ⟨[], h.sectorSize⟩ rd
-  let (fats, s2, rd2) ← loadFats difat s1 rd1
+  let (difat, s1, rd1) ← difatLoop (len / h.sectorSize + 1) h.difatStart difat0 ⟨[], h.sectorSize, len⟩ rd
+  let (fats, s2, rd2) ← loadFats difat s1 rd1 (len / 4) 0
   let (dirBytes, s3, rd3) ← s2.getChain h.dirStart fats rd2 (h.dirLen * h.sectorSize)
   let dirs ← parseDirs h.sectorSize (chunksExact 128 dirBytes)
   match dirs with
@@ -274,9 +248,8 @@ def new (file : Bytes) (len : Nat) : Res (CfbSt × Bytes) := do
     if h.miniFatLen > 0 then do
       let (ministream, s4, rd4) ← s3.getChain root.start fats rd3 root.len
       let (mf, s5, rd5) ← s4.getChain h.miniFatStart fats rd4 (h.miniFatLen * h.sectorSize)
-      if mf.length % 4 ≠ 0 then .panic "to_u32: assert_eq!(s.len() % 4, 0)"
-      else .ok (⟨dirs, s5, fats, ⟨ministream, 64⟩, u32s mf⟩, rd5)
-    else .ok (⟨dirs, s3, fats, ⟨[], 64⟩, []⟩, rd3)
+      .ok (⟨dirs, s5, fats, ⟨ministream, 64, len⟩, u32s mf⟩, rd5)
+    else .ok (⟨dirs, s3, fats, ⟨[], 64, len⟩, []⟩, rd3)
 
 /-- `Cfb::has_directory` -/
 def hasDirectory (c : CfbSt) (name : List Char) : Bool := c.dirs.any (fun d => d.name = name)
